@@ -184,3 +184,6 @@ package objects
 //@   mode nopanic=off
 //@   assigns nothing
 //@   ensures[tight] forall q *Queue, t Key :: anc(sq, q) && has(q.maxResource, t) ==> has(m, t) && rv(m, t) <= rv(q.maxResource, t)
+
+// unchecked increments of queue usage and forced node bindings are RM-only: no scheduling entry point reaches them
+//@ unreachable schedulingNeverForces props C02 C01 from objects.Queue.TryAllocate objects.Queue.TryReservedAllocate objects.Queue.TryPlaceholderAllocate : objects.Queue.IncAllocatedResource objects.Node.AddAllocation
